@@ -529,7 +529,8 @@ pub fn run_batch<P: Prop>(o: &Opts) -> i32 {
         let count = fs.len() as u64;
         let f = &fs[0];
         if let Some(k) = match_known(&known, P::ID, &f.v) {
-            *known_hit.entry(format!("{} [{}:{}]", k.what, class, key)).or_insert(0) += count;
+            let _ = (&class, &key);
+            *known_hit.entry(k.what.clone()).or_insert(0) += count;
             continue;
         }
         n_viol += count;
